@@ -9,6 +9,7 @@ THEOREMS = ['C01_lut_correct', 'C01_dispatch2_correct', 'C01_select_prim', 'C01_
             'C01_model_c_prop_refines', 'C01_model_build_conditions', 'C01_logicsim_model_correct', 'C01_logicsim_model_capture',
             'C01_cycles_model_correct', 'C01_sim_case2_correct']
 THEOREMS += ['C01_simops_ops_source_is_model', 'C01_simops_ops_source_is_model_wf', 'C01_simops_ops_source_nonvacuous']
+THEOREMS += ['C01_simops_ops_source_uses_translated_order']
 
 
 def oracle_cycles(c, stim_bits, k):
@@ -47,6 +48,8 @@ def run(ck):
     import random
     ok_t = sk.regen_tables(ck)
     ok_src = sc.translate_simops(ck)
+    from harness import traversals_src as ts
+    ts.translate_traversals(ck)       # circuit.topological_order / s_nodes, which the translated scheduler iterates over (Gen/TraversalsSrc.v)
     ck.prove('C01', THEOREMS)
     if ok_src:
         sc.run_source_corr(ck, random.Random(ck.seed * 7919 + 101), ck.scale(8, 200), 'op list')
